@@ -248,9 +248,9 @@ def prog_lookback(rng, **kw):
     C11, C14, C15 in situ)."""
     kw.setdefault("T", rng.randint(10, 14))
     sel = rng.choice(["all", "hasdata", "momentum", "setstat", "where", "these", "stat_n", "random", "regex"])
-    wg = rng.choice(["equal", "invvol", "erc", "target", "equal_tv", "equal_ld", "equal_lw", "random", "equal", "invvol", "equal_sw"])
+    wg = rng.choice(["equal", "invvol", "erc", "target", "equal_tv", "equal_ld", "equal_lw", "random", "equal", "invvol", "equal_sw", "pte", "dead"])
     # a dated target / statistic names tickers whatever their price: no late listings there
-    late_ok = wg != "target" and sel != "setstat"
+    late_ok = wg not in ("target", "pte", "dead") and sel != "setstat"
     prog = base_prog(rng, late=late_ok and rng.random() < 0.4, **kw)
     cols = prog["cols"]
     T = prog["T"]
@@ -318,6 +318,20 @@ def prog_lookback(rng, **kw):
     elif wg == "equal_lw":
         st.append(["WeighEqually", {}])
         st.append(["LimitWeights", {"limit": rng.choice([0.4, 0.6])}])
+    elif wg == "pte":
+        # rebalance to dated target weights only when the tracking error is too large
+        rows = [wvec(rng, cols, "long") for _ in range(T)]
+        ex["ptw"] = {c: [r.get(c, 0.0) for r in rows] for c in cols}
+        st.append(["RunAfterDays", {"days": 4}])
+        st.append(["PTE_Rebalance", {"cap": rng.choice([0.0, 0.01, 0.05]), "weights": "ptw", "lookback": rng.choice([4, 6]), "lag": rng.choice([0, 1])}])
+        st.append(["WeighTarget", {"weights": "ptw"}])
+    elif wg == "dead":
+        # a ticker dies (price 0 from some date on) while the weights still name it
+        victim = rng.choice(cols)
+        k = rng.randint(T // 2, T - 1)
+        prog["px"][victim] = prog["px"][victim][:k] + [0] * (T - k)
+        st.append(["WeighSpecified", {"w": wvec(rng, cols, "long")}])
+        st.append(["CloseDead", {}])
     elif wg == "equal_sw":
         st.append(["WeighEqually", {}])
         st.append(["ScaleWeights", {"scale": rng.choice([0.5, 1.5, -1.0])}])
